@@ -201,6 +201,21 @@ def shortest_paths(inits, edges):
     return path, root
 
 
+def read_dump(path):
+    """`tlc -dump FILE` output -> list of states (dicts var -> value)"""
+    with open(path) as f:
+        txt = f.read()
+    out = []
+    for chunk in re.split(r"(?m)^State \d+:\s*$", txt):
+        chunk = chunk.strip()
+        if not chunk:
+            continue
+        if not chunk.startswith("/\\"):
+            chunk = "/\\ " + chunk
+        out.append(parse_state(chunk))
+    return out
+
+
 def selftest():
     assert parse_value('<<1, "a", {2, 3}, [x |-> TRUE, y |-> <<>>], (1 :> "q" @@ 2 :> "r")>>') == \
         [1, "a", frozenset([2, 3]), {"x": True, "y": []}, {1: "q", 2: "r"}]
